@@ -5,7 +5,6 @@ sys.argv = sys.argv[1:len(sys.argv)]
 
 filename = sys.argv[0]
 if os.path.exists(filename) or filename[0] == '/':
-    os.environ["UFTRACE_PYMAIN"] = filename
     if filename[0] == '/':
         pathname = filename
     else:
@@ -16,13 +15,20 @@ else:
         try:
             f = open(pathname)
             sys.argv[0] = pathname
-            os.environ["UFTRACE_PYMAIN"] = pathname
             f.close()
             break
         except OSError:
             continue
 
+# The directory the script really is in (symbolic links resolved, as the python
+# interpreter does it for sys.path[0]): the modules next to the script are imported
+# from there, and the tracer takes the functions defined under that directory for
+# the program's own code (anything else is a library call).  Both have to use the
+# same name of the directory.
+realname = os.path.realpath(pathname)
+
 # UFTRACE_PYMAIN must be set before importing uftrace_python
+os.environ["UFTRACE_PYMAIN"] = realname
 import uftrace_python
 
 # Symbol and debug files are finally written at uftrace_trace_python_finish()
@@ -35,7 +41,7 @@ os._exit = os_exit
 
 new_globals = globals()
 new_globals["__file__"] = pathname
-sys.path.insert(0, os.path.dirname(pathname))
+sys.path.insert(0, os.path.dirname(realname))
 
 code = open(sys.argv[0]).read()
 sys.setprofile(uftrace_python.trace)
